@@ -18,6 +18,7 @@ import (
 	"context"
 	"crypto/sha256"
 	"encoding/hex"
+	"encoding/json"
 	"flag"
 	"fmt"
 	"io"
@@ -276,14 +277,25 @@ func rlPolicy(ns, nm, claim, match string, def bool, i int) *conf_v1.Policy {
 // scope: spec, then routes), claims x tiers (tiered rate-limit policies at spec level), ups
 // (upstreams), eps (endpoints per upstream), vsr (1: one of the routes lives in a VirtualServerRoute),
 // hdr (request/response headers per route).
+// longNames: a namespace of 56 and a name of 100 characters (valid: <= 63 / <= 253), so that ns_name
+// runs past every identifier limit a generator might apply (64, 128, 255)
+func longNames() (string, string) {
+	ns := "platform-engineering-shared-services-production-eu-west1"
+	nm := "cafe-storefront-checkout-and-payments-gateway-with-a-very-long-descriptive-name-for-the-blue-green-00"
+	return ns[:56], nm[:100]
+}
+
 func buildVS(r *vh.Rng, p map[string]int) *configs.VirtualServerEx {
-	ns := "default"
+	ns, vsName := "default", "cafe"
+	if p["long"] > 0 {
+		ns, vsName = longNames()
+	}
 	ups := p["ups"]
 	if ups < 2 {
 		ups = 2
 	}
 	vs := &conf_v1.VirtualServer{
-		ObjectMeta: meta_v1.ObjectMeta{Name: "cafe", Namespace: ns},
+		ObjectMeta: meta_v1.ObjectMeta{Name: vsName, Namespace: ns},
 		Spec:       conf_v1.VirtualServerSpec{Host: "cafe.example.com"},
 	}
 	ex := &configs.VirtualServerEx{
@@ -324,6 +336,13 @@ func buildVS(r *vh.Rng, p map[string]int) *configs.VirtualServerEx {
 				pr.RequestHeaders.Set = append(pr.RequestHeaders.Set, conf_v1.Header{Name: fmt.Sprintf("X-Req-%s-%d", words[r.Intn(len(words))], h), Value: fmt.Sprintf("v%d", r.Intn(100))})
 				pr.ResponseHeaders.Add = append(pr.ResponseHeaders.Add, conf_v1.AddHeader{Header: conf_v1.Header{Name: fmt.Sprintf("X-Resp-%s-%d", words[r.Intn(len(words))], h), Value: fmt.Sprintf("w%d", r.Intn(100))}, Always: r.Bool()})
 				pr.ResponseHeaders.Hide = append(pr.ResponseHeaders.Hide, fmt.Sprintf("X-Hide-%d", h))
+			}
+			if p["dup"] > 0 { // lists with repeated entries (validation accepts them)
+				pr.ResponseHeaders.Hide = append(pr.ResponseHeaders.Hide, pr.ResponseHeaders.Hide[0], "X-Hide-Extra", pr.ResponseHeaders.Hide[0])
+				pr.ResponseHeaders.Pass = []string{"X-Pass-A", "X-Pass-B", "X-Pass-A", "X-Pass-C", "X-Pass-B"}
+				pr.ResponseHeaders.Ignore = []string{"X-Accel-Expires", "Cache-Control", "X-Accel-Expires", "Expires"}
+				pr.RequestHeaders.Set = append(pr.RequestHeaders.Set, pr.RequestHeaders.Set[0])
+				pr.ResponseHeaders.Add = append(pr.ResponseHeaders.Add, pr.ResponseHeaders.Add[0])
 			}
 			act = &conf_v1.Action{Proxy: pr}
 		}
@@ -471,6 +490,10 @@ func buildIngress(r *vh.Rng, p map[string]int, nm string, host string, annN int,
 				Path: "/healthz", Port: intstr.FromInt(80), Scheme: "HTTP", HTTPHeaders: []api_v1.HTTPHeader{{Name: "Host", Value: host}, {Name: "X-Probe", Value: svc}, {Name: "Accept", Value: "text/plain"}, {Name: "B3", Value: "0"}}}},
 				PeriodSeconds: int32(1 + i), TimeoutSeconds: 1}
 		}
+	}
+	if p["dup"] > 0 {
+		ann["nginx.org/proxy-hide-headers"] = "X-Powered-By,Server,X-Powered-By,X-Secret,Server"
+		ann["nginx.org/proxy-pass-headers"] = "X-Upstream,X-Trace,X-Upstream"
 	}
 	if p["svcann"] > 0 {
 		ann["nginx.org/ssl-services"] = strings.Join(sslSvcs, ",")
@@ -672,8 +695,20 @@ func runRender(c *Case) (obs RenderObs) {
 	}
 	var first map[string][]byte
 	seen := map[string]bool{}
+	var store configs.ExtendedResources
 	for round := 0; round < c.Rounds; round++ {
-		res, mm := buildResources(c, round) // fresh, equal resources every time (endpoint sets in another order)
+		var res configs.ExtendedResources
+		var mm int
+		if c.P["reuse"] > 0 && c.Kind != "vsctl" { // (vsctl re-syncs its stored objects through the controller itself)
+			// the SAME object values every round, as an informer store hands them out: never re-created, never copied
+			if round == 0 {
+				store, mm = buildResources(c, 0)
+				obs.MaxMap = mm
+			}
+			res, mm = syncWrappers(store), obs.MaxMap
+		} else {
+			res, mm = buildResources(c, round) // fresh, equal resources every time (endpoint sets in another order)
+		}
 		obs.MaxMap = mm
 		mgr.files, mgr.changed = map[string][]byte{}, false
 		before := mgr.reloads
@@ -780,6 +815,30 @@ func snapshot(res configs.ExtendedResources) []snap {
 	return out
 }
 
+func jsonDiff(a, b any) string {
+	ja, _ := json.Marshal(a)
+	jb, _ := json.Marshal(b)
+	n := 0
+	for n < len(ja) && n < len(jb) && ja[n] == jb[n] {
+		n++
+	}
+	if n == len(ja) && n == len(jb) {
+		return ""
+	}
+	lo := n - 60
+	if lo < 0 {
+		lo = 0
+	}
+	cut := func(j []byte) string {
+		hi := n + 60
+		if hi > len(j) {
+			hi = len(j)
+		}
+		return string(j[lo:hi])
+	}
+	return fmt.Sprintf(": before ...%s... after ...%s...", cut(jb), cut(ja))
+}
+
 func describeMutation(s snap) string {
 	d := s.name + " was modified by the generator"
 	if a, ok := s.obj.(*networking.Ingress); ok {
@@ -798,10 +857,10 @@ func describeMutation(s snap) string {
 			}
 		}
 		if len(gained)+len(lost)+len(changed) > 0 {
-			d += fmt.Sprintf(": annotations gained %v lost %v changed %v", gained, lost, changed)
+			return d + fmt.Sprintf(": annotations gained %v lost %v changed %v", gained, lost, changed)
 		}
 	}
-	return d
+	return d + jsonDiff(s.obj, s.copy)
 }
 
 func addMutations(acc []string, snaps []snap) []string {
@@ -1289,6 +1348,18 @@ func genCases(a vh.Args) []Case {
 	add("render", "mergeable", true, map[string]int{"svcs": 3, "eps": 1, "ann": 10, "minions": 3, "deny": 1, "hc": 1}, rounds) //
 	add("render", "ts", false, map[string]int{"n": 1, "ups": 5, "eps": 3}, rounds)                                             // TS with several upstreams
 	add("render", "ts", true, map[string]int{"n": 5, "ups": 2, "eps": 1, "pt": 1}, rounds)                                     // TLS passthrough host map with 5 entries
+	// lists with repeated entries, the same object values rendered again and again (no re-creation, no deep copy)
+	add("render", "vs", false, map[string]int{"ups": 4, "eps": 1, "hdr": 3, "dup": 1, "mix": 1, "reuse": 1}, rounds)
+	add("render", "vs", true, map[string]int{"ups": 3, "eps": 1, "hdr": 2, "dup": 1, "akp": 2, "keys": 3, "claims": 2, "tiers": 2, "vsr": 1, "reuse": 1}, rounds)
+	add("render", "vs", true, map[string]int{"ups": 2, "hdr": 1, "dup": 1}, rounds)
+	add("render", "ingress", false, map[string]int{"svcs": 3, "eps": 1, "ann": 8, "dup": 1, "svcann": 1, "reuse": 1}, rounds)
+	add("render", "mergeable", true, map[string]int{"svcs": 2, "eps": 1, "ann": 8, "minions": 2, "deny": 1, "dup": 1, "reuse": 1}, rounds)
+	add("render", "ts", false, map[string]int{"n": 2, "ups": 3, "eps": 1, "reuse": 1}, rounds)
+	add("render", "vsctl", true, map[string]int{"ups": 3, "eps": 1, "sub": 2, "hdr": 2, "dup": 1, "reuse": 1}, rounds)
+	// names near / over identifier limits (namespace 56 + name 100 characters), compared across processes
+	add("render", "vs", false, map[string]int{"ups": 3, "eps": 1, "mix": 1, "hdr": 1, "long": 1}, rounds)
+	add("render", "vs", true, map[string]int{"ups": 2, "mix": 1, "akp": 2, "keys": 2, "claims": 2, "tiers": 2, "long": 1, "reuse": 1}, rounds)
+	add("render", "vsctl", true, map[string]int{"ups": 2, "eps": 1, "sub": 2, "mix": 1, "long": 1}, rounds)
 	// upstreams selected by 2-4 subselector labels: endpoint sets keyed by GenerateEndpointsKey, as the controller does,
 	// and the whole way through the controller's createVirtualServerEx
 	add("render", "vs", false, map[string]int{"ups": 4, "eps": 2, "sub": 2, "vsr": 1, "akp": 1, "keys": 2}, rounds)
@@ -1307,7 +1378,10 @@ func genCases(a vh.Args) []Case {
 		case 0, 1, 2, 3:
 			p := map[string]int{"ups": 2 + r.Intn(4), "eps": r.Intn(3), "keys": 1 + r.Intn(9), "akp": r.Intn(5),
 				"claims": r.Intn(4), "tiers": 2 + r.Intn(2), "rlroute": r.Intn(2), "vsr": r.Intn(3), "hdr": r.Intn(4), "mix": r.Intn(2),
-				"sub": r.Intn(5)}
+				"sub": r.Intn(5), "dup": r.Intn(2), "reuse": r.Intn(2)}
+			if r.Chance(1, 4) {
+				p["long"], p["mix"] = 1, 1
+			}
 			if r.Chance(1, 5) {
 				add("render", "vsctl", r.Bool(), map[string]int{"ups": 2 + r.Intn(3), "eps": r.Intn(3), "sub": 2 + r.Intn(3), "vsr": r.Intn(2), "hdr": r.Intn(3), "mix": r.Intn(2)}, rounds)
 				continue
@@ -1317,9 +1391,9 @@ func genCases(a vh.Args) []Case {
 			}
 			add("render", "vs", r.Chance(3, 4), p, rounds)
 		case 4:
-			add("render", "ingress", r.Bool(), map[string]int{"svcs": 2 + r.Intn(5), "eps": r.Intn(3), "ann": 2 + r.Intn(14), "svcann": r.Intn(2), "hc": r.Intn(2)}, rounds)
+			add("render", "ingress", r.Bool(), map[string]int{"svcs": 2 + r.Intn(5), "eps": r.Intn(3), "ann": 2 + r.Intn(14), "svcann": r.Intn(2), "hc": r.Intn(2), "dup": r.Intn(2), "reuse": r.Intn(2)}, rounds)
 		case 5:
-			add("render", "mergeable", r.Bool(), map[string]int{"svcs": 2 + r.Intn(3), "eps": r.Intn(2), "ann": 2 + r.Intn(12), "minions": 2 + r.Intn(3), "deny": r.Intn(2), "hc": r.Intn(2)}, rounds)
+			add("render", "mergeable", r.Bool(), map[string]int{"svcs": 2 + r.Intn(3), "eps": r.Intn(2), "ann": 2 + r.Intn(12), "minions": 2 + r.Intn(3), "deny": r.Intn(2), "hc": r.Intn(2), "dup": r.Intn(2), "reuse": r.Intn(2)}, rounds)
 		case 6:
 			add("render", "ts", r.Bool(), map[string]int{"n": 1 + r.Intn(2), "ups": 2 + r.Intn(5), "eps": r.Intn(3)}, rounds)
 		case 7:
@@ -1351,7 +1425,7 @@ func genCases(a vh.Args) []Case {
 	for sc := range historyScenarios {
 		for _, plus := range []bool{false, true} {
 			add("history", historyScenarios[sc].kind, plus, map[string]int{"scenario": sc, "svcs": 3, "eps": 1, "ann": 8, "minions": 3, "deny": 1,
-				"ups": 3, "keys": 3, "akp": 2, "claims": 2, "tiers": 2, "n": 2, "hdr": 1}, 1)
+				"ups": 3, "keys": 3, "akp": 2, "claims": 2, "tiers": 2, "n": 2, "hdr": 2, "dup": 1, "long": sc % 2}, 1)
 		}
 	}
 	// settings histories: every custom-template key x every sequence, alternating template sets
